@@ -43,6 +43,10 @@ CONSTANTS MaxCols,      \* 1..MaxCols columns
           BindModes,    \* subset of {"seq", "map"}: positional / by-name binding
           MetaModes,    \* subset of {"inline", "prepared"}: result metadata in the ROWS message, or taken from the
                         \* prepared statement (NO_METADATA flag, "skip metadata")
+          NameModes,    \* subset of {"lower", "mixed"}: the identity of a column is the triple (keyspace, table, column) of
+                        \* its names EXACTLY as the server reports them - lower case for ordinary identifiers, as
+                        \* written for quoted, case-sensitive ones (ks."Accounts"."Photo").  The policy is configured
+                        \* with that same triple; "encrypted or not" is a property of the identity, whatever its spelling.
           PolicyModes   \* subset of {"same", "default_ivs", "explicit_ivs"}: the policy that decodes is the very instance
                         \* that bound / a separate instance with the same keys, both with their default (random) IV /
                         \* a separate instance with the same keys, both with explicit, different IVs
@@ -118,13 +122,20 @@ RECURSIVE RowsOf(_, _, _)
 RowSet(cols, n) == {row \in [1..n -> UNION {Cells(ty) : ty \in Types}] : \A c \in 1..n : row[c] \in Cells(cols[c].ty)}
 RowsOf(cols, n, r) == IF r = 0 THEN {<<>>} ELSE {<<row>> \o rest : row \in RowSet(cols, n), rest \in RowsOf(cols, n, r - 1)}
 
+\* names of keyspace, table and columns per name mode
+ColumnId(nm, c) ==
+    IF nm = "lower" THEN <<"ks", "t", CASE c = 1 -> "c1" [] c = 2 -> "c2" [] OTHER -> "c3">>
+    ELSE <<"Ks", "Accounts", CASE c = 1 -> "Photo" [] c = 2 -> "userName" [] OTHER -> "ID">>
+
 Init ==
     \E n \in 1..MaxCols : \E cols \in Layouts(n) : \E r \in 0..MaxRows : \E pv \in PVs :
     \E bm \in BindModes : \E mm \in MetaModes : \E pm \in PolicyModes :
+    \E nm \in NameModes :
        /\ n * r <= MaxCells
        /\ (pm # "same" => \E c \in 1..n : cols[c].enc)       \* a second policy instance only matters with an encrypted column
        /\ \E rows \in RowsOf(cols, n, r) :
-          /\ case = [cols |-> cols, rows |-> rows, pv |-> pv, bind |-> bm, meta |-> mm, pol |-> pm]
+          /\ case = [cols |-> cols, rows |-> rows, pv |-> pv, bind |-> bm, meta |-> mm, pol |-> pm,
+                    names |-> nm, ids |-> [c \in 1..n |-> ColumnId(nm, c)]]
           /\ LET bound == [i \in 1..r |-> [c \in 1..n |-> BindCell(c, cols[c], rows[i][c])]] IN
              out = [bound |-> bound,
                     decoded |-> [i \in 1..r |-> [c \in 1..n |-> DecodeCell(c, cols[c], WireCell(c, bound[i][c]), pm)]]]
@@ -159,6 +170,8 @@ Witness_SeparateReaderPolicy == ~(case.pol # "same" /\ R >= 1 /\ ReaderIv(case.p
 Witness_BlockAlignedPaddingLikeTail ==
     ~(\E i \in 1..R : \E c \in 1..N : case.cols[c].enc /\ case.rows[i][c].k = "val"
                                         /\ PaddingLikeTail(Ser(case.cols[c].ty, case.rows[i][c].v)))
+Witness_MixedCaseEncryptedColumn ==
+    ~(case.names = "mixed" /\ R >= 1 /\ \E c \in 1..N : case.cols[c].enc /\ case.rows[1][c].k = "val")
 Witness_EmptyStringEncrypted == ~(\E i \in 1..R : \E c \in 1..N : case.cols[c].enc /\ case.rows[i][c].k = "val"
                                                                   /\ case.cols[c].ty = "text" /\ case.rows[i][c].v.s = <<>>)
 =============================================================================
